@@ -1286,10 +1286,10 @@ def run(chk):
     ]
     chk.assumptions = [
         "theorems are about pipelines in builder-normal form (Model/PipePrint.normal: no skipped order_rows, unmerged mergeable extends or collapsed select_columns left in the tree; flags as the constructors compute them) -- every tree the builder API produces; reported as normal_form_coverage",
-        "expressions are printable in C13's sense (what the parser builds, minus C13's listed findings) and lexable (column / method names are ASCII identifiers that are not keywords; no nan: C13's value type has none)",
+        "expressions are printable in C13's sense (what the parser builds; no infinite constant) and lexable (column / method names are ASCII identifiers that are not keywords; no nan: C13's value type has none)",
         "float(repr(x)) == x and repr(x) is a FLOAT_NUMBER literal, for the float constants of the pipeline (Python's float repr; hypothesis float_lex_ok of the theorems)",
         "validation by the builders beyond the structural tests transcribed in Model/PipePrint.v (window-function catalogue) is C26's subject; generated pipelines are accepted ones",
-        "SQLNode, DictTerm inside pipelines (mapv), numpy scalar constants, control-table cells that are not strings: no image in the model (oracle only)",
+        "SQLNode, DictTerm inside pipelines (mapv), control-table cells that are not strings, pipelines whose expressions name keyword / non-ASCII columns: no image in the model (oracle only)",
     ]
     chk.cov["rule"] = ("(a) random strings over quotes, backslashes, control characters, %, braces, printable and non-printable non-ASCII code points; (b) random literal texts over every escape form; "
                        "(c) expression texts from a typed grammar rich in unary minus, power chains, negative / float / huge constants, quoted strings, is_in lists, mapv dicts, if_else, plus term objects built without the parser; "
